@@ -12,7 +12,8 @@ function by function.
   (all arguments except the caption's title-casing).
 * `mkQuant` = simple branch of `Quantity.__init__`; `checkValue` = `Quantity.CheckValue`;
   `doValidate` = `Array._DoValidateValues` (NaN-skipping min/max scan, tuple branch);
-  `validateValues` = `Array.ValidateValues` (cached verdict); `isValid` = `IsValid` wrapper.
+  `validateValues` = `Array.ValidateValues` (cached verdict); `isValid` = `IsValid` wrapper;
+  `createCopy` = `Array.CreateCopy` without new values (`GetAbstractValue(unit)` + a fresh object).
 -/
 import Barril.Model.Conv
 
@@ -392,6 +393,104 @@ def call (g : Reg) (q : Quant) (o : Obj) : Call → Obj × CallOut
 def calls (g : Reg) (q : Quant) : Obj → List Call → List CallOut
   | _, [] => []
   | o, c :: cs => (call g q o c).2 :: calls g q (call g q o c).1 cs
+
+/-! ### `Array.CreateCopy(values=None, unit, category)` -/
+
+/-- `tuple/list(frombase(tobase(v)) for v in value)` -/
+def convElems (this other : UnitRow) : List Val → Except ErrKind (List Val)
+  | [] => .ok []
+  | v :: vs =>
+    match convRowsV this other v with
+    | .error e => .error e
+    | .ok w =>
+      match convElems this other vs with
+      | .error e => .error e
+      | .ok ws => .ok (w :: ws)
+
+/-- the two rows `UnitDatabase.Convert(category, from_unit, to_unit, …)` works with -/
+def convRowsOf (g : Reg) (cat fromU toU : Sym) : Except ErrKind (UnitRow × UnitRow) :=
+  match g.db.typeOf cat with
+  | .error e => .error e
+  | .ok qt =>
+    match g.db.getInfo qt fromU true with
+    | .error e => .error e
+    | .ok this =>
+      match g.db.getInfo qt toU true with
+      | .error e => .error e
+      | .ok other => .ok (this, other)
+
+/-- the elements of a list of tuples, converted tuple by tuple (`Quantity.Convert` per number, so the
+rows are looked up only when there is a number to convert); an element that is not a tuple cannot be
+iterated: `TypeError` -/
+def convItems (g : Reg) (cat fromU toU : Sym) : List Item → Except ErrKind (List Item)
+  | [] => .ok []
+  | .num _ :: _ => .error .type
+  | .tup [] :: r =>
+    match convItems g cat fromU toU r with
+    | .error e => .error e
+    | .ok r' => .ok (.tup [] :: r')
+  | .tup (v :: vs) :: r =>
+    match convRowsOf g cat fromU toU with
+    | .error e => .error e
+    | .ok (this, other) =>
+      match convElems this other (v :: vs) with
+      | .error e => .error e
+      | .ok ws =>
+        match convItems g cat fromU toU r with
+        | .error e => .error e
+        | .ok r' => .ok (.tup ws :: r')
+
+/-- `Array.GetAbstractValue(unit)`: the stored values when no unit or the own unit is asked, else
+their conversion (container kind kept) -/
+def valuesIn (g : Reg) (cat unit : Sym) (toUnit : Option Sym) (a : ArrVal) : Except ErrKind ArrVal :=
+  match toUnit with
+  | none => .ok a
+  | some u =>
+    if u == unit then .ok a else
+    match a with
+    | .flat kind vs =>
+      match convRowsOf g cat unit u with
+      | .error e => .error e
+      | .ok (this, other) =>
+        match convElems this other vs with
+        | .error e => .error e
+        | .ok ws => .ok (.flat kind ws)
+    | .nested kind first rest =>
+      match convItems g cat unit u (.tup first :: rest) with
+      | .ok (.tup f' :: r') => .ok (.nested kind f' r')
+      | .ok _ => .error .other          -- unreachable: `convItems` keeps the shape
+      | .error e => .error e
+
+/-- `Array.CreateCopy(unit=…, category=…)` without new values: the values in the requested unit, a
+quantity obtained for (unit, category) — the own category when none is given — and a NEW object: nothing
+of the source's memoised verdict is carried over (`_InternalCreateWithQuantity` resets it).  A `TypeError`
+(category without unit, values that cannot be converted) is re-raised as `TypeError`.  Not modelled:
+copies of derived quantities and of the empty category. -/
+def createCopy (g : Reg) (q : Quant) (a : ArrVal) (_k : Cache) (unit cat : Option Sym) :
+    Except ErrKind (Quant × Obj) :=
+  match q with
+  | .derived => .error .other
+  | .simple c u _ =>
+    match valuesIn g c.name u unit a with
+    | .error e => .error e
+    | .ok a' =>
+      match unit, cat with
+      | none, none => .ok (q, .array a' Cache.fresh)
+      | none, some _ => .error .type
+      | some u', some c' =>
+        match mkQuant g c' u' with
+        | .error e => .error e
+        | .ok q' => .ok (q', .array a' Cache.fresh)
+      | some u', none =>
+        if c.name == 0 then .error .other else
+        match mkQuant g c.name u' with
+        | .error e => .error e
+        | .ok q' => .ok (q', .array a' Cache.fresh)
+
+/-- the object after a sequence of calls -/
+def afterCalls (g : Reg) (q : Quant) : Obj → List Call → Obj
+  | o, [] => o
+  | o, c :: cs => afterCalls g q (call g q o c).1 cs
 
 /-! ### `UnitDatabase.AddCategory` -/
 
